@@ -205,6 +205,7 @@ class SimNetwork(object):
         self.sockets = []
         self._next_port = 40000
         self.on_tx = None       # monitor hook: (sock, payload)
+        self.send_fail_hook = None   # fault hook: (sock, payload) -> bool
         self.on_rx = None       # monitor hook: (sock, payload) at recv()
         self.tx_count = 0
         self.rx_count = 0
@@ -279,6 +280,12 @@ class SimSocket(object):
         if self.closed:
             raise OSError(9, "Bad file descriptor (simulated)")
         self.sent += 1
+        hook = self.net.send_fail_hook
+        if hook is not None and hook(self, bytes(data)):
+            # e.g. a pending ICMP error on a connected UDP socket: nothing
+            # leaves the host
+            self.net.world.fault("send_error")
+            raise ConnectionRefusedError(111, "Connection refused (simulated)")
         self.net.transmit(self, bytes(data))
         return len(data)
 
